@@ -91,6 +91,9 @@ def rand_value(rng, typ):
         if rng.random() < 0.2 and x == int(x) and abs(x) < 1e6:
             return float(x), str(int(x))
         return float(x), repr(float(x))
+    if typ == 'ptr':
+        s = rng.choice(['p1', 'obj', 'x y', 'q'])
+        return s, s
     if typ == 'bool':
         w = rng.choice(['true', 'false', 'yes', 'no', 'on', 'off'])
         v = 1 if w in ('true', 'yes', 'on') else 0
@@ -103,7 +106,7 @@ def rand_value(rng, typ):
 
 def val_token(rng, typ, fancy=True):
     v, dec = rand_value(rng, typ)
-    if typ == 'str':
+    if typ in ('str', 'ptr'):
         sp = spell_string(rng, dec, fancy)
     else:
         sp = dec if rng.random() < 0.8 else rng.choice([spell_sq(dec), '"%s"' % dec])
@@ -192,7 +195,7 @@ def rand_default(rng, t):
 def gen_items(rng, decls, toks, depth=0, nitems=None, fancy=True, used_titles=None, to=None):
     """append the tokens of a random sequence of items valid for `decls`"""
     to = to or {}
-    usable = [d for d in decls if d.typ != 'ptr' and not d.simple]
+    usable = [d for d in decls if (d.typ != 'ptr' or to.get('ptr')) and not d.simple]
     if not usable:
         return
     n = nitems if nitems is not None else rng.randint(0 if depth else 1, 5)
